@@ -11,38 +11,19 @@ import (
 	"golang.org/x/tools/go/ssa/ssautil"
 )
 
-const supportSrc = `//go:build verif
-
-package %s
-
-import (
-	"regexp"
-	"time"
-)
-
-func verifRegexMatch(pattern, s string) bool        { return regexp.MustCompile("^" + pattern + "$").MatchString(s) }
-
-func verifTime(tag string) time.Time               { return time.Unix(0, int64(verifReplayValue(tag))).UTC() }
-func verifDuration(tag string) time.Duration       { return time.Duration(int64(verifReplayValue(tag))) }
-// Harness vocabulary. Bodies are only used natively (replay); the engine intercepts these by name.
-func verifInt(tag string) int                      { return int(verifReplayValue(tag)) }
-func verifInt64(tag string) int64                  { return int64(verifReplayValue(tag)) }
-func verifBool(tag string) bool                    { return verifReplayValue(tag) != 0 }
-func verifByte(tag string) byte                    { return byte(verifReplayValue(tag)) }
-func verifChoice(tag string, n int) int            { return int(verifReplayValue(tag)) }
-func verifBytes(tag string, n int) string          { b := make([]byte, n); for i := range b { b[i] = byte(verifReplayValue(tag + "#" + verifItoa(i))) }; return string(b) }
-func verifAtom(tag string, others int, candidates ...string) string { v := int(verifReplayValue(tag)); if v < others { return "other" + verifItoa(v) }; return verifInterned[v] }
-var verifInterned map[int]string
-func verifPred(name, s string) bool                 { return verifPredImpl(name, s) }
-var verifPredImpl func(name, s string) bool
-func verifOpaqueString() string                     { return "<opaque>" }
-func verifAssume(c bool)                           { if !c { panic("verif: assumption violated in replay") } }
-func verifAssert(c bool, msg string)               { if !c { panic("VERIF-ASSERT-FAILED: " + msg) } }
-func verifReach(label string)                      {}
-func verifItoa(i int) string                       { if i == 0 { return "0" }; s := ""; for i > 0 { s = string(rune('0'+i%%10)) + s; i /= 10 }; return s }
-var verifReplay map[string]uint64
-func verifReplayValue(tag string) uint64           { return verifReplay[tag] }
-`
+// supportSource reads the harness vocabulary file (shared with native replay) and sets its package name.
+func supportSource(pkgName string) ([]byte, error) {
+	p := os.Getenv("VERIF_SUPPORT")
+	if p == "" {
+		exe, _ := os.Executable()
+		p = filepath.Join(filepath.Dir(filepath.Dir(exe)), "harness", "common", "support.go.tmpl")
+	}
+	b, err := os.ReadFile(p)
+	if err != nil {
+		return nil, err
+	}
+	return []byte(strings.ReplaceAll(string(b), "__PKG__", pkgName)), nil
+}
 
 type Loaded struct {
 	Prog *ssa.Program
@@ -75,7 +56,11 @@ func Load(repo, pkgPattern string, harnessFiles []string, replace map[string]str
 			}
 		}
 	}
-	overlay[filepath.Join(pkgDir, "zz_verif_support.go")] = []byte(fmt.Sprintf(supportSrc, pkgName))
+	sup, err := supportSource(pkgName)
+	if err != nil {
+		return nil, err
+	}
+	overlay[filepath.Join(pkgDir, "zz_verif_support.go")] = sup
 	cfg := &packages.Config{
 		Mode:       packages.LoadAllSyntax,
 		Dir:        repo,
@@ -93,10 +78,13 @@ func Load(repo, pkgPattern string, harnessFiles []string, replace map[string]str
 	prog, spkgs := ssautil.AllPackages(pkgs, ssa.InstantiateGenerics)
 	prog.Build()
 	l := &Loaded{Prog: prog, Pkgs: spkgs}
-	for _, p := range spkgs {
-		if p != nil {
+	for i, p := range spkgs {
+		if p != nil && i < len(pkgs) && (l.Main == nil || p.Pkg.Name() == pkgName) {
 			l.Main = p
 		}
+	}
+	if l.Main == nil {
+		return nil, fmt.Errorf("harness package not found")
 	}
 	return l, nil
 }
